@@ -569,6 +569,9 @@ func (r *Run) runChildChecksEnv(tag string, env []string, args ...string) ([]str
 					v.Case.Args = map[string]string{}
 				}
 				v.Case.Args["child_process"] = tag
+				if strings.HasPrefix(tag, "GOMAXPROCS=") && len(args) > 3 {
+					v.Case.Args["child_range"] = args[3]
+				}
 				r.Violate(v)
 			}
 			continue
@@ -668,4 +671,23 @@ func GCStress(fn func()) {
 	fn()
 	close(stop)
 	<-done
+}
+
+// ReplayInChild re-runs the compact child process that saw a violation (same monitor, seed, processor count and
+// range limit): some violations depend on what that process rated before (a memo shared between vectors) and
+// cannot be reproduced from the single case.  Returns the number of violations the child reports.
+func ReplayInChild(id string, seed int64, procs, rangeLimit string) (int, error) {
+	cmd := exec.Command(childBinary(), "procchild", id, fmt.Sprint(seed), rangeLimit)
+	cmd.Env = append(os.Environ(), "GOMAXPROCS="+procs)
+	out, err := cmd.Output()
+	n := 0
+	for _, line := range strings.Split(string(out), "\n") {
+		if strings.HasPrefix(line, "CHILD-VIOLATION ") {
+			n++
+			if n <= 3 {
+				fmt.Println(clip(line, 600))
+			}
+		}
+	}
+	return n, err
 }
